@@ -6,8 +6,8 @@ Property theorems (proofs and intermediate lemmas: `CalicoVerif.Proofs.C09`):
 
 * `endpoint_chain_verdict_partial` — END TO END: over a chain set holding the rendered workload endpoint
   chain, the policy-group chains, the policy chains and the profile chains, evaluation of the
-  endpoint chain reaches exactly the reference verdict `endpointVerdict` (RETURN with the accept
-  bit = allow, DROP/REJECT = deny), for ANY number of tiers, groups (inline or with their own chain,
+  endpoint chain (every chain type: normal, forward, untracked, pre-DNAT) reaches exactly the
+  reference verdict at policy level (RETURN with the accept bit = allow, DROP/REJECT = deny), for ANY number of tiers, groups (inline or with their own chain,
   any length, i.e. across the return stride), enforced and staged policies, profiles; flow logs
   on/off; both dataplanes.  C08's per-rule theorem enters as the hypothesis `RuleExact` per rule,
   discharged by `ruleExact_of_le2` for every rule with at most two positive match blocks.
@@ -16,8 +16,8 @@ Property theorems (proofs and intermediate lemmas: `CalicoVerif.Proofs.C09`):
   `profile_section_exact`, `policy_chain_shape` / `profile_chain_shape` (a policy / profile chain
   behaves like its first matching rule, incl. stripping of trailing RETURNs).
 
-Explicit limits of the end-to-end statement (hypotheses): the "normal" chain type, admin-up, no
-failsafe chain, a packet that is not ESTABLISHED/RELATED/INVALID and not hit by the encap drop
+Explicit limits of the end-to-end statement (hypotheses): admin-up, a failsafe chain (if any) that
+lets the packet through, a packet that is not ESTABLISHED/RELATED/INVALID and not hit by the encap drop
 rules, entry mark with the drop bit clear, distinct chain lookups as given, and NO `pass` RULE IN A
 PROFILE: the profile chains are entered with the pass bit possibly still set by the last tier and
 the pass bit is never cleared between profiles, so a profile containing a pass rule is not rendered
@@ -26,20 +26,31 @@ exactly (see the report; C12 owns the profile-pass question).
 namespace CalicoVerif.C09
 open CalicoVerif.Netfilter CalicoVerif.Policy CalicoVerif.C08
 
-/-- **Rendered endpoint chain = reference verdict** (`_partial`: the full statement of the property
-is false of the code — `profile_pass_stale_false` — and this theorem is restricted to the "normal"
-chain type, admin-up endpoints, no failsafe chain, packets outside the conntrack / encap preamble,
-profiles without pass rules, and rules satisfying C08's per-rule exactness `RuleExact`, which
-`ruleExact_of_le2` provides for every rule with at most two positive match blocks).
+/-- **Rendered endpoint chain = reference verdict, every chain type** (`_partial`: the full
+statement of the property is false of the code — `profile_pass_stale_false` — and this theorem
+carries these hypotheses: admin-up (admin-down: `endpoint_admin_down_drops`), a failsafe chain — if
+any — that lets the packet through, a packet outside the conntrack / encap preamble, the drop bit
+clear on entry, profiles without pass rules, and every rule satisfying C08's per-rule exactness
+`RuleExact`, which `ruleExact_of_le2` provides for every rule with at most two positive blocks).
+
 Over a chain set holding the rendered endpoint chain, the policy-group chains of its non-inlined
 groups, the policy chains of its enforced policies and its profile chains, for any number of tiers,
-groups, policies and profiles: evaluation ends in RETURN with the accept bit set iff
-`endpointVerdict` = allow and in DROP/REJECT iff deny.  `out` is the outcome per jump target: a
-policy's `policyOutcome`, or for a group chain its first deciding enforced member. -/
+groups (any length), enforced / staged policies and profiles, with the outcomes taken at POLICY
+level (`policyTiers`: each tier's enforced policies in evaluation order, `policyOutcome` = first
+matching rule):
+* normal chains (workload endpoints, host endpoints): RETURN with the accept bit iff
+  `endpointVerdict` = allow, DROP/REJECT iff deny — tiers in order, first allow/deny decides, pass
+  moves to the next tier, a tier holding an enforced policy that matches nothing denies unless its
+  default action is Pass, staged policies never count, then the profiles, else deny;
+* forward chains: no tiers ⇒ allowed; otherwise the tier verdict, undecided ⇒ returns to the caller
+  with the accept bit clear;
+* untracked / pre-DNAT chains: the tier verdict without end-of-tier drop; undecided ⇒ returns with
+  the accept bit clear. -/
 theorem endpoint_chain_verdict_partial (cfg : Cfg) (mo : MarksOK cfg) (vb : VBits cfg) (vd : VD cfg) (e : EpCfg)
     (env : Env) (pkt : Packet) (chains : List Chain) (name : String) (tiers : List Tier) (profiles : List String)
     (polRules : String → List Policy.Rule) (out : String → PolOutcome) (F : Nat) (m : Mark)
-    (hn : e.chainType = .normal) (hup : e.adminUp = true) (hfs : e.failsafe = "")
+    (hup : e.adminUp = true)
+    (hfs : e.failsafe ≠ "" → ∀ m', evalChain env chains pkt (F + 3) e.failsafe m' = .returned m')
     (hct : pkt.ctState ≠ "RELATED" ∧ pkt.ctState ≠ "ESTABLISHED" ∧ pkt.ctState ≠ "INVALID")
     (henc : (e.dropVXLAN = true → pkt.proto ≠ 17) ∧ (e.dropIPIP = true → pkt.proto ≠ 4))
     (hmD : m &&& cfg.markDrop = 0)
@@ -54,12 +65,23 @@ theorem endpoint_chain_verdict_partial (cfg : Cfg) (mo : MarksOK cfg) (vb : VBit
     (o2 : ∀ t ∈ tiers, ∀ g ∈ t.groups, g.inlined = false →
       out g.chain = firstDecision (g.nonStaged.map fun p => policyOutcome env pkt.v6 pkt (polRules p.chain)))
     (o3 : ∀ p ∈ profiles, out p = policyOutcome env pkt.v6 pkt (polRules p)) :
-    VShape cfg
-      (endpointVerdict (tiers.map fun t => ((tierTargets t).map (fun th => out th.1), t.defaultPass))
-        (profiles.map out))
-      (evalChain env chains pkt (F + 4) name m) :=
-  endpoint_chain_verdict_core cfg mo vb vd e env pkt chains name tiers profiles polRules out F m hn hup hfs hct henc
-    hmD hep hgrp hpol hprof o1 o2 o3
+    let r := evalChain env chains pkt (F + 4) name m
+    match e.chainType with
+    | .normal =>
+      VShape cfg (endpointVerdict (policyTiers env pkt polRules tiers true)
+        (profiles.map fun p => policyOutcome env pkt.v6 pkt (polRules p))) r
+    | .forward =>
+      if tiers.isEmpty then ∃ m', r = .returned m' ∧ m' &&& cfg.markAccept = cfg.markAccept
+      else TShape cfg (tiersVerdict (policyTiers env pkt polRules tiers true)) (fun m' => .returned m') r
+    | _ => TShape cfg (tiersVerdict (policyTiers env pkt polRules tiers false)) (fun m' => .returned m') r :=
+  endpoint_chain_verdict_any cfg mo vb vd e env pkt chains name tiers profiles polRules out F m hup hfs hct henc hmD
+    hep hgrp hpol hprof o1 o2 o3
+
+/-- an admin-down endpoint drops (rejects) everything -/
+theorem endpoint_admin_down_drops (cfg : Cfg) (e : EpCfg) (env : Env) (call : String → Mark → Result) (pkt : Packet)
+    (name : String) (tiers : List Tier) (profiles : List String) (m : Mark) (hdown : e.adminUp = false) :
+    runRules env call pkt (endpointChain cfg e name tiers profiles).rules m = .verdict (denyV cfg) m :=
+  endpoint_admin_down cfg e env call pkt name tiers profiles m hdown
 
 /-! ### the hypothesis "no pass rule in a profile" is necessary: a finding -/
 
